@@ -1,9 +1,13 @@
 import Driver.Util
 import ImmuModel.Auth.Matrix
+import ImmuModel.Auth.Streams
 /-!
 Driver ops for C18 (prefix token `c18`), stateless:
   c18 gate <service> <wire> <handler> <stream01> <cfg: auth multidb maint as 3 bits> <kind> <state> <db>
            <sysadmin01> <permSel> <permNamed> <anyAdmin01> <tx01> <multiLogin01> <sqlPriv01>           → verdict
+  c18 snext <handler> <cfg> <kind> <state> <db> <sysadmin01> <permSel> <permNamed> <anyAdmin01> <tx01> <multiLogin01> <sqlPriv01>
+           → verdict for a FURTHER message on an already open stream of <handler> | no-stream-facts
+  c18 sfacts <handler>          → multi01 recvLoop01 replyInLoop01 loopGates(,) entryGates(,) | no-stream-facts
   c18 perm <method> <code>      → true|false      (auth.HasPermissionForMethod)
   c18 maint <method>            → true|false      (auth.IsMaintenanceMethod)
   c18 effect <handler>          → effect name | unclassified
@@ -49,6 +53,21 @@ def step (s : St) : List String → St × String
       let c : Caller := { kind := kind, state := state, db := db, sysadmin := sa, permSel := ps, permNamed := pn, anyAdmin := aa, tx := tx, multiLogin := ml, sqlPriv := sp }
       (s, (rpcGate cfg c ⟨svc, wire, h, st⟩).toString)
     | _, _, _, _, _, _, _, _, _, _, _, _ => (s, "bad-op")
+  | ["snext", h, cfg, kind, state, db, sa, ps, pn, aa, tx, ml, sp] =>
+    match cfg? cfg, kind? kind, state? state, db? db, bit? sa, ps.toNat?, pn.toNat?, bit? aa, bit? tx, bit? ml, bit? sp with
+    | some cfg, some kind, some state, some db, some sa, some ps, some pn, some aa, some tx, some ml, some sp =>
+      let c : Caller := { kind := kind, state := state, db := db, sysadmin := sa, permSel := ps, permNamed := pn, anyAdmin := aa, tx := tx, multiLogin := ml, sqlPriv := sp }
+      match streamGate? h with
+      | some g => (s, (streamNextGate cfg c g).toString)
+      | none => (s, "no-stream-facts")
+    | _, _, _, _, _, _, _, _, _, _, _ => (s, "bad-op")
+  | ["sfacts", h] =>
+    match streamGate? h with
+    | some g =>
+      let b (x : Bool) : String := if x then "1" else "0"
+      let l (xs : List String) : String := if xs.isEmpty then "-" else ",".intercalate xs
+      (s, s!"{b (multiRequest g)} {b g.recvLoop} {b g.replyInLoop} {l g.loopGates} {l g.entryGates}")
+    | none => (s, "no-stream-facts")
   | ["perm", m, p] =>
     match p.toNat? with
     | some p => (s, b2s (hasPermissionForMethod p m))
